@@ -25,6 +25,8 @@ RecS(r, e, i) ==
     [] e.pat = "few" -> MulMod(NatI((i % 3) + 1), e.D, r)
     [] e.pat = "small" -> NatI(i % 7)
     [] e.pat = "collide" -> MulMod(NatI((i % ToInt(e.A)) + 1), e.D, r)
+    \* (i mod C) + 1 in the top window only (D a power of two)
+    [] e.pat = "top" -> MulMod(NatI((i % ToInt(e.C)) + 1), e.D, r)
     [] OTHER -> Lin(r, e.C, e.D, i)
 
 Idx(n) == [j \in 1..n |-> j - 1]
